@@ -2275,3 +2275,19 @@ V("C09", "watch_callback_fed_from_the_event", "fire", "R09.s", (D, "            
 V("C02", "constructor_links_before_the_last_keyword", "fire", "R02.k", (Z, "            if ref is not None:\n                refs[name] = ref\n                deps[name] = ref_deps\n            if not is_async and not (resolved is Undefined or resolved is Skip):\n                setattr(self, name, resolved)\n        return refs, deps", "            if ref is not None:\n                refs[name] = ref\n                deps[name] = ref_deps\n            if not is_async and not (resolved is Undefined or resolved is Skip):\n                setattr(self, name, resolved)\n            if ref is not None:\n                self_._update_ref(name, ref)\n        return refs, deps"))
 V("C09", "user_keywords_forwarded_to_the_internal_method", "fire", "R09.t", (R, "        new = self._as_rx()._resolve_accessor()\n        return new._clone({'fn': func, 'args': args, 'kwargs': kwargs, 'reverse': False})", "        return self._as_rx()._apply_operator(func, *args, **kwargs)"))
 V("C09", "benign_pipe_operation_built_in_two_steps", "benign", None, (R, "        new = self._as_rx()._resolve_accessor()\n        return new._clone({'fn': func, 'args': args, 'kwargs': kwargs, 'reverse': False})", "        operation = {'fn': func, 'args': args, 'kwargs': kwargs, 'reverse': False}\n        new = self._as_rx()._resolve_accessor()\n        return new._clone(operation)"))
+# --- round l
+V("C03", "batch_flushed_before_the_flag_is_restored", "fire", "R03.x", (Z, "        parameterized.param._BATCH_WATCH = BATCH_WATCH\n        if not BATCH_WATCH:\n            parameterized.param._batch_call_watchers()\n\n\n@contextmanager\ndef _syncing", "        if not BATCH_WATCH:\n            parameterized.param._batch_call_watchers()\n        parameterized.param._BATCH_WATCH = BATCH_WATCH\n\n\n@contextmanager\ndef _syncing"))
+V("C03", "event_set_to_false_is_ignored", "fire", "R03.l", (P, "    def __set__(self, obj, val):\n        try:\n            if self._mode in ['set-reset', 'set']:\n                super().__set__(obj, val)", "    def __set__(self, obj, val):\n        if val is self._autotrigger_reset_value and self._mode == 'set-reset':\n            return\n        try:\n            if self._mode in ['set-reset', 'set']:\n                super().__set__(obj, val)"))
+V("C08", "reference_free_check_looks_one_level_deep", "fire", "R08.o", (Z, "    elif isinstance(value, (list, tuple)):\n        return type(value)(resolve_value(v) for v in value)", "    elif isinstance(value, (list, tuple)):\n        if not any(resolve_ref(v) for v in value):\n            return value\n        return type(value)(resolve_value(v) for v in value)"))
+V("C08", "root_expression_referenced_by_its_only_parameter", "fire", "R08.q", (R, "    return bind(lambda *_: obj.rx.value, *obj._params)", "    if obj._prev is None and obj._operation is None and not obj._method and len(obj._params) == 1:\n        return obj._params[0]\n    return bind(lambda *_: obj.rx.value, *obj._params)"))
+V("C09", "root_marked_clean_before_its_function_ran", "fire", "R09.y", (R, "            root._shared_obj[0] = eval_function_with_deps(root._fn)\n            root._dirty_obj = False", "            root._dirty_obj = False\n            root._shared_obj[0] = eval_function_with_deps(root._fn)"))
+V("C09", "positional_dependencies_read_owner_by_owner", "fire", "R09.z", (Z, "            args = (getattr(dep.owner, dep.name) for dep in arg_deps)", "            by_owner = defaultdict(list)\n            for dep in arg_deps:\n                by_owner[id(dep.owner)].append(dep)\n            args = [getattr(dep.owner, dep.name) for deps in by_owner.values() for dep in deps]"))
+V("C09", "benign_positional_dependencies_as_a_list", "benign", None, (Z, "            args = (getattr(dep.owner, dep.name) for dep in arg_deps)", "            args = [getattr(dep.owner, dep.name) for dep in arg_deps]"))
+V("C10", "bound_coroutine_evaluations_share_a_task", "fire", "R10.b2", (R, "            evaled = eval_fn()(*combined_args, **combined_kwargs)\n            return await evaled", "            import asyncio\n            evaled = asyncio.ensure_future(eval_fn()(*combined_args, **combined_kwargs))\n            return await evaled"))
+V("C12", "set_in_bounds_assigns_on_the_owner", "fire", "R12.b2", (P, "            bounded_val = val\n        super().__set__(obj, bounded_val)", "            bounded_val = val\n        setattr(self.owner or obj, self.name, bounded_val)"))
+V("C13", "pager_edits_the_live_lookup", "fire", "R13.y", ("param/ipython.py", "        params = dict(obj.param.objects('existing'))", "        params = obj.param.objects('existing')"))
+V("C17", "generator_state_dropped_from_the_saved_state", "fire", "R17.u", (NG, "    def _verify_constrained_hash(self):", "    def __getstate__(self):\n        state = super().__getstate__()\n        private = copy.copy(state['_param__private'])\n        private.values = dict(private.values, random_generator=type(self.random_generator)())\n        state['_param__private'] = private\n        return state\n\n    def _verify_constrained_hash(self):"), (NG, "import random\n", "import copy\nimport random\n"))
+V("C05", "reentrancy_guard_not_released_on_failure", "fire", "R05.p", (D, "            def cb(*events):\n                args = (getattr(dep.owner, dep.name) for dep in dependencies)\n                dep_kwargs = {n: getattr(dep.owner, dep.name) for n, dep in kw.items()}\n                return func(*args, **dep_kwargs)", "            active = []\n            def cb(*events):\n                if active:\n                    return\n                active.append(events)\n                args = (getattr(dep.owner, dep.name) for dep in dependencies)\n                dep_kwargs = {n: getattr(dep.owner, dep.name) for n, dep in kw.items()}\n                result = func(*args, **dep_kwargs)\n                active.pop()\n                return result"))
+V("C05", "benign_reentrancy_guard_released_in_finally", "benign", None, (D, "            def cb(*events):\n                args = (getattr(dep.owner, dep.name) for dep in dependencies)\n                dep_kwargs = {n: getattr(dep.owner, dep.name) for n, dep in kw.items()}\n                return func(*args, **dep_kwargs)", "            active = []\n            def cb(*events):\n                active.append(events)\n                try:\n                    args = (getattr(dep.owner, dep.name) for dep in dependencies)\n                    dep_kwargs = {n: getattr(dep.owner, dep.name) for n, dep in kw.items()}\n                    return func(*args, **dep_kwargs)\n                finally:\n                    active.pop()"))
+V("C10", "argument_triggers_dropped_once_one_trigger_is_watched", "fire", "R10.d2", (R, "            for ref in resolve_ref(arg, recursive=True):\n                if ref not in ps:\n                    ps.append(ref)", "            for ref in resolve_ref(arg, recursive=True):\n                if ref in ps:\n                    continue\n                if any(isinstance(p.owner, Trigger) and p.owner.internal for p in ps) and isinstance(ref.owner, Trigger) and ref.owner.internal:\n                    continue\n                ps.append(ref)"))
+V("C04", "copy_recreates_a_shared_watcher_per_parameter", "fire", "R04.w", (Z, "            recreated = {}\n            for p, attrs in param_watchers.items():\n", "            for p, attrs in param_watchers.items():\n                recreated = {}\n"))
